@@ -65,8 +65,8 @@ ASSUMPTIONS = [
 ]
 RULE = ("generated workflow descriptions (2-5 nodes; per field: constant / own split list of length 0-3 / either output "
         "of an earlier node; own splitter = outer product of zip groups in random order, 10% of zipped fields with "
-        "unequal length; random combiner over the node's axes naming whole zip groups (80%) or single fields; 15% "
-        "nested-workflow nodes; 1/16 of the cases under the cf worker; plus shape families chain, fan-in, relay, "
+        "unequal length; random combiner over the node's axes naming whole zip groups (80%) or single fields; 10% "
+        "nested-workflow nodes; 1/15 of the cases under the cf worker; plus shape families chain, fan-in, relay, "
         "diamond, deep-share), distinct by their JSON; non-trivial = some node with a "
         "state consumes the output of a node with open axes")
 
@@ -235,7 +235,7 @@ def spec_axes(case):
     return axes, faxes
 
 
-def finish(nodes, rng, p_comb, p_zip=0.35, p_nested=0.15):
+def finish(nodes, rng, p_comb, p_zip=0.35, p_nested=0.1):
     """choose zip groups, splitter order, output selectors, nested-workflow nodes and combiners for bare field lists"""
     out = []
     faxes = []
@@ -487,7 +487,7 @@ def classify(i, res):
 
 def run(ctx):
     rng = ctx.rng
-    n = ctx.budget(130, 1400)
+    n = ctx.budget(110, 1200)
     cases, seen = [], set()
     corpus = [c["case"] if "case" in c else c for c in ctx.corpus()]
     for c in corpus:
@@ -503,7 +503,7 @@ def run(ctx):
         seen.add(key)
         cases.append(c)
     for k, c in enumerate(cases):        # a share of the cases runs under the concurrent-futures worker (outputs only)
-        if k % 16 == 5:
+        if k % 15 == 5:
             c["worker"] = "cf"
     t0 = time.time()
     obs = run_impl(cases, nproc=4 if ctx.tier == "quick" else 6)
